@@ -17,6 +17,8 @@ import (
 	"time"
 
 	"harness/sim"
+
+	"github.com/welllog/golib/zzsim/core"
 )
 
 type Spec struct {
@@ -153,6 +155,7 @@ func Main(spec *Spec) {
 			}
 			c.LogHash = "tables"
 		} else {
+			core.PoolReset(c.EnvSeed)
 			v, _ = spec.Exec(c, out)
 		}
 		c.Violation = v
@@ -194,6 +197,7 @@ func Main(spec *Spec) {
 		c := spec.Gen(r, *tier)
 		c.Property, c.Engine, c.Seed = spec.ID, "C", rs>>12
 		sim.SetCurrent(c)
+		core.PoolReset(c.EnvSeed)
 		v, nontrivial := spec.Exec(c, out)
 		out.Runs++
 		out.Steps += int64(len(c.Ops))
